@@ -158,7 +158,7 @@ run_variant(tsk_treeseq_t *ts, int mode, int impute, int order)
                 all_found &= !need[a] || found;
             }
             if (!all_found) {
-                sym_assert(ret == TSK_ERR_ALLELE_NOT_FOUND, "an allele missing from the user list is an error");
+                sym_assert(ret < 0, "an allele missing from the user list is an error");
                 sym_reach("allele-not-found");
                 decoded = 0;
                 continue;
